@@ -10,7 +10,21 @@ CHECK = {'level': 'exploration',
          'structured index sets on a fresh storage copy for every size 1..130 (1..520); (c) rapid-generated trees with sizes around powers of '
          'two up to 2^12 (2^13 thorough), small sizes and uniform 0..2100, random distinct leaves (drawn byte strings incl. empty, 32-byte ids, '
          'mixed lengths, leaves starting with 0x00/0x01), random subsets/orders, reloads at drawn sizes, further appends after proofs, short '
-         'histories of updates with proofs and reloads in between; (d) lists with duplicate leaves: roots and append paths only; (e) argument '
+         'histories of updates with proofs and reloads in between; (c2) histories of several Updates on ONE tree object in which leaf values '
+         'RETURN to earlier values: enumerated for every size 1..40 (thorough 1..260) and every target leaf (structured targets above 16) the '
+         'patterns A-B-A, A-B-C-A, no-op updates, A-B-reload-A, two leaves swapping values and back, a leaf set to the value of another leaf and '
+         'back, two leaves changed and reverted together / separately, each followed by updates of other leaves; rapid-generated histories '
+         '(sizes 1..12, 1..70, 1..300, 2^k+-3 up to 2^8; 2..12 steps of update / proof of a drawn subset with negative variants / reload '
+         'continuing on the re-opened object / second object opened from the same store; update values drawn from: previous value of the '
+         'position, its first value, any earlier value, unchanged, value of another leaf, fresh, a value used before elsewhere; swaps; 1..n '
+         'positions concentrated on 1-3 drawn leaves); after EVERY step: Root()=CalculateRoot=model root, Size, a second object opened from '
+         'the store has the same root/size/append path, and the STORED nodes are read back through the tree itself: the inclusion proof of '
+         'EVERY single leaf (also the leaves no update named) verifies against the root and a right witness at EVERY index 1..n with the '
+         'model append path of the prefix reconstructs it (labels hist-*); positions whose value was never held elsewhere are updated '
+         'through a generated proof (VerifyProof, CalculateRootFromUpdateData = model root, Update) and their GenerateProof index is asserted, '
+         'for repeated values (swaps, duplicates) Update goes by index and a GenerateProof answer is asserted when it names a current '
+         'holder of the value (an earlier holder: counted as obs:*, not asserted); (d) lists with duplicate leaves built by Append: roots and '
+         'append paths only; (e) argument '
          'discipline on every call of every public function of pkg/trie/rmt (CalculateRoot, CalculateRootFromAppendPath, '
          'CalculateRootFromUpdateData, CalculateRootFromRightWitness, VerifyProof, VerifyRightWitness, tree Append/Update/GenerateProof): '
          'query and update index lists in ascending, descending and shuffled order (labels order=*); every argument (index slices, hash lists, '
@@ -22,15 +36,18 @@ CHECK = {'level': 'exploration',
          'as sub-slices of one buffer with full capacity / with spare capacity, outer slices as windows of one array, index list as window '
          'of a larger array with sentinels, must give the results of independent copies and stay unchanged (labels alias=*). Non-trivial = '
          'length >= 3 that is not a power of two; for subset cases additionally >= 2 queried/updated leaves lying on both sides of the root '
-         'split. Distinct by digest of (kind, size, positions / drawn parameters)',
+         'split; for update histories: such a length, at least one value returning to an earlier value of its position and the proof of at '
+         'least one leaf that no update named checked afterwards. Distinct by digest of (kind, size, positions / drawn parameters / steps)',
  'level_text': 'Differential test of the regular Merkle tree against a naive LIP-0031 model: exhaustive over all list lengths up to 260 '
                '(2100 thorough) for root/append path/size/reload/append prediction, over all witness indexes and structured proof and update '
                'index sets for every size in a smaller range, rapid-sampled beyond (sizes around powers of two up to 2^13, random subsets, '
-               'operation histories). Soundness side: tampered query hashes and roots must be rejected. Every call is additionally checked for '
+               'operation histories; histories of updates on one tree object whose values return to earlier values, the whole stored tree read back '
+               'through single-leaf proofs and right witnesses after every step). Soundness side: tampered query hashes and roots must be rejected. Every call is additionally checked for '
                'not modifying its arguments, for giving the same answers when the same argument objects are used again, and when the '
                'arguments share backing arrays.',
- 'level_note': 'Model is my transcription of LIP-0031; leaves are distinct for proof/update/witness checks (hash-keyed location index), '
-               'duplicates only in root checks; after an Update nothing that depends on the stored append path is asserted.',
+ 'level_note': 'Model is my transcription of LIP-0031; appended leaves are distinct for proof/update/witness checks (hash-keyed location '
+               'index), duplicates in appended lists only in root checks; values repeated through Update are addressed by index; after an '
+               'Update nothing that depends on the stored append path is asserted (no append, no append path, no right witness at index 0).',
  'technique': 'exhaustive enumeration + property-based differential testing (rapid) against a LIP-0031 reference model',
  'assumptions': ['reference = my transcription of LIP-0031 in harness/model/rmt (SHA-256, prefixes 0x00/0x01, split at the largest power of two < n)',
                  'leaves distinct except in root-only checks (no caller appends duplicates)',
@@ -40,6 +57,9 @@ CHECK = {'level': 'exploration',
                  'hash arguments with spare capacity inside one caller buffer: known finding C11-F5 (reported once per run, that layout is then '
                  'only counted; the full-capacity layouts are asserted strictly)',
                  'Update does not refresh the stored append path (observed, reported in notes/C11.md as outside the statement): no append, '
-                 'append-path or right-witness assertion after an Update'],
+                 'append-path assertion and no right witness at index 0 (which returns the stored append path) after an Update; right '
+                 'witnesses at indexes 1..n are read from the stored nodes and are asserted after updates in the update histories',
+                 'GenerateProof addresses leaves by hash: when a value was held by more than one position during the life of the tree '
+                 '(duplicates, swaps through Update) its answer is asserted only if it names a position holding the value now'],
  'quick': [{'pkg': 'c11', 'checks': 500, 'timeout': 600}],
  'thorough': [{'pkg': 'c11', 'checks': 3000, 'shards': 16, 'timeout': 2400}]}
